@@ -739,3 +739,183 @@ func ruleCascadeReentry(c *Ctx, rule string) {
 	c.CallSites(n)
 	c.Floor(rule, 1)
 }
+
+// ---- collections gathered from a field, then visited -------------------------------------------------
+//
+// `for _, x := range store.links { x.CheckIntegrity(…) }` is sometimes written in two steps: first gather, in a
+// loop over the field, something made from every element (the element itself, a small struct holding it, a bound
+// method of it) into a local slice, then run one loop over that slice.  gatheredFrom finds such local slices;
+// fromGathered says whether a value is (a part of) an element of one.
+
+type gathered struct {
+	members map[ssa.Value]bool // the slice values of the family: append results, joins, reslices
+	method  string             // when the elements are bound method values: the method's name
+}
+
+func gatheredFrom(fn *ssa.Function, fld *types.Var) []*gathered {
+	var out []*gathered
+	loops := loopsOf(fn)
+	// what an appended element is made from
+	var made func(v ssa.Value, depth int) (bool, string)
+	made = func(v ssa.Value, depth int) (bool, string) {
+		if v == nil || depth > 5 {
+			return false, ""
+		}
+		if derivesFromField(v, fld, 0) {
+			return true, ""
+		}
+		switch x := v.(type) {
+		case *ssa.MakeInterface:
+			return made(x.X, depth+1)
+		case *ssa.ChangeInterface:
+			return made(x.X, depth+1)
+		case *ssa.ChangeType:
+			return made(x.X, depth+1)
+		case *ssa.MakeClosure:
+			if f, isFn := x.Fn.(*ssa.Function); isFn && strings.HasSuffix(f.Name(), "$bound") && len(x.Bindings) == 1 {
+				if ok, _ := made(x.Bindings[0], depth+1); ok {
+					return true, strings.TrimSuffix(f.Name(), "$bound")
+				}
+			}
+		case *ssa.UnOp:
+			// a struct built field by field
+			if al, isAl := x.X.(*ssa.Alloc); isAl && x.Op == token.MUL && al.Referrers() != nil {
+				for _, r := range *al.Referrers() {
+					fa, isFA := r.(*ssa.FieldAddr)
+					if !isFA || fa.Referrers() == nil {
+						continue
+					}
+					for _, fr := range *fa.Referrers() {
+						if st, isSt := fr.(*ssa.Store); isSt && st.Addr == ssa.Value(fa) {
+							if ok, m := made(st.Val, depth+1); ok {
+								return true, m
+							}
+						}
+					}
+				}
+			}
+		}
+		return false, ""
+	}
+	for _, call := range callsIn(fn) {
+		cv, isCall := call.(*ssa.Call)
+		if !isCall {
+			continue
+		}
+		bi, isB := cv.Call.Value.(*ssa.Builtin)
+		if !isB || bi.Name() != "append" || len(cv.Call.Args) != 2 {
+			continue
+		}
+		l := innermostLoop(loops, cv.Block())
+		if l == nil {
+			continue
+		}
+		sl, isSl := cv.Call.Args[1].(*ssa.Slice)
+		if !isSl {
+			continue
+		}
+		arr, isArr := sl.X.(*ssa.Alloc)
+		if !isArr {
+			continue
+		}
+		elems := arrayLiteralElems(arr)
+		if len(elems) != 1 {
+			continue
+		}
+		ok, method := made(elems[0], 0)
+		if !ok {
+			continue
+		}
+		// gathered for every element: the append stands on every way round the loop
+		every := true
+		for b := range l.Blocks {
+			for _, s := range b.Succs {
+				if s == l.Header && !cv.Block().Dominates(b) {
+					every = false
+				}
+			}
+		}
+		if !every {
+			continue
+		}
+		g := &gathered{members: map[ssa.Value]bool{cv: true}, method: method}
+		for changed := true; changed; {
+			changed = false
+			for _, b := range fn.Blocks {
+				for _, in := range b.Instrs {
+					v, isV := in.(ssa.Value)
+					if !isV || g.members[v] {
+						continue
+					}
+					switch x := in.(type) {
+					case *ssa.Phi:
+						for _, e := range x.Edges {
+							if g.members[e] {
+								g.members[x] = true
+								changed = true
+							}
+						}
+					case *ssa.Slice:
+						if g.members[x.X] {
+							g.members[x] = true
+							changed = true
+						}
+					case *ssa.Call:
+						if b2, isB2 := x.Call.Value.(*ssa.Builtin); isB2 && b2.Name() == "append" && len(x.Call.Args) > 0 && g.members[x.Call.Args[0]] {
+							g.members[x] = true
+							changed = true
+						}
+					}
+				}
+			}
+		}
+		// two appends into one slice (links, then constraints) are one family, listed once per append
+		out = append(out, g)
+	}
+	return out
+}
+
+// fromGathered: v is an element of one of the gathered slices, or a part of one.
+func fromGathered(v ssa.Value, g *gathered, depth int) bool {
+	if v == nil || depth > 8 {
+		return false
+	}
+	switch x := v.(type) {
+	case *ssa.IndexAddr:
+		return g.members[x.X]
+	case *ssa.UnOp:
+		return fromGathered(x.X, g, depth+1)
+	case *ssa.Field:
+		return fromGathered(x.X, g, depth+1)
+	case *ssa.FieldAddr:
+		return fromGathered(x.X, g, depth+1)
+	case *ssa.ChangeInterface:
+		return fromGathered(x.X, g, depth+1)
+	case *ssa.MakeInterface:
+		return fromGathered(x.X, g, depth+1)
+	case *ssa.ChangeType:
+		return fromGathered(x.X, g, depth+1)
+	case *ssa.Extract:
+		return fromGathered(x.Tuple, g, depth+1)
+	case *ssa.Next:
+		return fromGathered(x.Iter, g, depth+1)
+	case *ssa.Range:
+		return g.members[x.X]
+	case *ssa.Alloc:
+		// the loop variable kept in a local: what is stored into it
+		if x.Referrers() != nil {
+			for _, r := range *x.Referrers() {
+				if st, isSt := r.(*ssa.Store); isSt && st.Addr == ssa.Value(x) && fromGathered(st.Val, g, depth+1) {
+					return true
+				}
+			}
+		}
+	case *ssa.Phi:
+		for _, e := range x.Edges {
+			if fromGathered(e, g, depth+1) {
+				return true
+			}
+		}
+	}
+	return false
+}
